@@ -177,6 +177,17 @@ func init() {
 			}
 		},
 	}
+	plans["C18"] = &Plan{
+		Level: "exploration",
+		Rule: "single-switch metamorphic relations: for a switch S and a random setting R of the 15 other switches, the same value/document is run with R and with R+S and the difference must be exactly S's documented effect: EscapeHTML == encoding/json.HTMLEscape(out_R); SortMapKeys changes member order only (and top-level map keys ascend); NoNullSliceOrMap == out_R of the value with nil slices/maps made empty; ValidateString(encode) == out_R with invalid UTF-8 replaced by \\ufffd; EncodeNullForInfOrNan == out_R of the value with NaN/Inf replaced by a sentinel, sentinel -> null, and no change without NaN/Inf; CompactMarshaler changes no token; NoQuoteTextMarshaler/NoValidateJSONMarshaler change nothing for types without such marshalers; NoEncoderNewline only removes the stream encoder's newline; UseInt64/UseNumber change only how numbers land in interface{}; CopyString/NoValidateJSONSkip change nothing on valid documents; DisallowUnknownFields agrees with encoding/json's DisallowUnknownFields on which documents have unknown keys and changes no accepted value; ValidateString(decode) changes nothing for clean strings and equals decoding the UTF-8-corrected document; UseUnicodeErrors changes nothing without lone surrogate escapes and never changes a value silently; CaseSensitive == encoding/json on the document without the keys that match only case-insensitively. Entry points: encoder.Encode/EncodeInto/MarshalToString/MarshalIndent/stream encoder vs Froze().Marshal, decoder.Decoder+SetOptions/UnmarshalFromString vs Froze().Unmarshal with the same switches. distinct = hash(switch, other switches, type, value/document)",
+		Assumptions: stdAssumptions, MinEvals: 20000, MinEvalsThorough: 1000000,
+		Runs: func(string) []*Run {
+			return []*Run{
+				{Name: "jit", Flavor: "plain", NBatch: 16, TimeoutS: n(900, 3000)},
+				{Name: "vm-optdec", Flavor: "plain", NBatch: n(4, 16), Env: []string{"SONIC_ENCODER_USE_VM=1", "SONIC_USE_OPTDEC=1"}, TimeoutS: n(900, 3000)},
+			}
+		},
+	}
 	plans["C11"] = &Plan{
 		Level:       "exploration",
 		Rule:        "the C01 case list (same seed => same (type, configuration, pre-populated destination, document) cases) is decoded in three processes: jitdec, SONIC_USE_OPTDEC=1, SONIC_USE_OPTDEC=1+SONIC_USE_FASTMAP=1; each case yields a digest (error-or-not + canonical deep dump of the destination) and the digests are compared across processes; every process also reports acceptance of a structurally malformed document. distinct = hash(type descriptor, config, document); non-trivial = document length >= 2. The verif bridge reports the implementation each process really ran; identical configurations make the run inconclusive",
